@@ -128,7 +128,8 @@ func fixIns(ins *x86asm.Inst, pos int, block []byte, blockSize int,
 		result := bytecode.EncodeAddress(block[pos:offset],
 			block[offset:offset+ins.PCRel], ins.PCRel, addr, (int)(from)-(int)(trampoline))
 		if len(result) > ins.PCRel {
-			return result
+			// 相对地址之后的立即数等剩余字节原样保留
+			return append(result, block[offset+ins.PCRel:pos+ins.Len]...)
 		}
 	} else {
 		if ins.Op.String() == bytecode.CallInsName {
